@@ -45,6 +45,8 @@ structure Fn where
   nt : Nat
   /-- a forward declaration (carrying the attributes) precedes the definition -/
   fd : Bool
+  /-- an overload `void <name>(int p0)` is defined at the very end of the file -/
+  lo : Bool
 
 structure Init where
   uses : List Nat
@@ -58,6 +60,8 @@ structure Pipe where
   stages : List Nat
   /-- the block carries a property only a graphics pipeline may have (`gs<k>`; `gb<k>` = blend state blocks only) -/
   gstate : Bool
+  /-- the block is written before the entry point definitions it would otherwise follow -/
+  before : Bool
 
 def splitList (s : String) (sep : String) : List String := if s.isEmpty then [] else s.splitOn sep
 
@@ -166,7 +170,7 @@ def parseHelper (s : String) : Option Fn :=
     let opts := optsOf parts 4
     pure { name, uses := ← useList? uses, calls := ← natList? calls, statics := ← natList? statics,
            stage := none, threads := none, dflt := ← optList? opts "d", inits := [], nt := 0,
-           fd := opts.contains "fd" }
+           fd := opts.contains "fd", lo := false }
   | _ => none
 
 def parseEntry (s : String) : Option Fn :=
@@ -179,7 +183,8 @@ def parseEntry (s : String) : Option Fn :=
       | none => some 0
     pure { name, uses := ← useList? uses, calls := ← natList? calls, statics := ← natList? statics,
            stage := some (← parseStage stage), threads := ← parseThreads threads, dflt := [],
-           inits := ← optList? (opts.filter (fun o => !o.startsWith "nt")) "i", nt, fd := opts.contains "fd" }
+           inits := ← optList? (opts.filter (fun o => !o.startsWith "nt")) "i", nt, fd := opts.contains "fd",
+           lo := opts.contains "lo" }
   | _ => none
 
 def parsePipe (s : String) : Option Pipe :=
@@ -187,7 +192,8 @@ def parsePipe (s : String) : Option Pipe :=
   match parts.take 3 with
   | [name, dflt, stages] => do
     let opts := optsOf parts 3
-    pure { name, dflt := ← optNat? dflt, stages := ← natList? stages, gstate := opts.any (·.startsWith "gs") }
+    pure { name, dflt := ← optNat? dflt, stages := ← natList? stages, gstate := opts.any (·.startsWith "gs"),
+           before := opts.contains "b" }
   | _ => none
 
 def parseInit (s : String) : Option Init :=
@@ -206,11 +212,15 @@ def parseGlobals (s : String) : Option (Nat × Bool × List Init) :=
     if rest.any (fun g => !(g == "L1" || g.startsWith "I")) then none
     pure (n, rest.contains "L1", inits)
 
-/-- the numthreads attributes an entry point is written with -/
+/-- the numthreads attributes the *definition* of an entry point is written with (`nt4`: the second attribute stands
+    on the forward declaration only) -/
 def attrsOf (f : Fn) : List (Nat × Nat × Nat) :=
   match f.threads with
   | none => []
   | some (x, y, z) => if f.nt == 3 then [(x + 1, y, z), (x, y, z)] else [(x, y, z)]
+
+/-- the late overloads (`lo`) in file order: names of the entry points that get one -/
+def lateOverloads (entries : List Fn) : List String := (entries.filter (·.lo)).map (·.name)
 
 /-- entry points that get a `static const uint c_nt<k>` -/
 def ntConsts (entries : List Fn) : List Nat :=
@@ -297,8 +307,9 @@ def nameSrc (msl : Bool) (pg : Prog) : NameSrc :=
       (List.range pg.inits.length).map (fun k => (none, "s_init" ++ toString k)) ++
       (if msl then cbs.map fun i => (nsOf pg.rs i, nm i) else []),
     funcs := pg.helpers.map (fun f => (none, f.name)) ++
-      (entryOrder pg.layout1 pg.entries.length pg.pipes).map fun k =>
-        (none, match pg.entries[k]? with | some f => f.name | none => "") }
+      ((entryOrder pg.layout1 pg.entries.length pg.pipes).map fun k =>
+        (none, match pg.entries[k]? with | some f => f.name | none => "")) ++
+      (lateOverloads pg.entries).map fun n => (none, n) }
 
 /-- position of a value in a list -/
 def indexOf? (l : List Nat) (x : Nat) : Option Nat :=
@@ -306,8 +317,8 @@ def indexOf? (l : List Nat) (x : Nat) : Option Nat :=
   | some i => some i
   | none => none
 
-/-- names the exporter prints: (per resource, per entry point) -/
-def emittedNames (msl : Bool) (pg : Prog) : Except String (List String × List String) :=
+/-- names the exporter prints: (per resource, per helper, per entry point) -/
+def emittedNames (msl : Bool) (pg : Prog) : Except String (List String × List String × List String) :=
   let src := nameSrc msl pg
   match Names.build (if msl then mslReserved else hlslReserved) src.input with
   | .error e => .error e
@@ -341,10 +352,12 @@ def emittedNames (msl : Bool) (pg : Prog) : Except String (List String × List S
         | .ok x, .ok r => .ok (x :: r)
         | .error e, _ => .error e
         | _, .error e => .error e) (.ok [])
-    match collect resName pg.rs.length, collect entName pg.entries.length with
-    | .ok a, .ok b => .ok (a, b)
-    | .error e, _ => .error e
-    | _, .error e => .error e
+    match collect resName pg.rs.length, collect (fun h => leaf names .func h) pg.helpers.length,
+          collect entName pg.entries.length with
+    | .ok a, .ok h, .ok b => .ok (a, h, b)
+    | .error e, _, _ => .error e
+    | _, .error e, _ => .error e
+    | _, _, .error e => .error e
 
 /-- root definitions in the order the generated file declares them:
     struct CbS; struct ResS; statics; numthreads constants; two structs; groupshared payload; resources;
@@ -367,7 +380,7 @@ def declsOf (pg : Prog) (resNames : List String) : List TDecl × Nat :=
 def buildOne (msl : Bool) (p : Params) (pg : Prog) (pipe : Option PipeDef) : String :=
   match emittedNames msl pg with
   | .error e => "panic:" ++ e
-  | .ok (resNames, entNames) =>
+  | .ok (resNames, helperNames, entNames) =>
   let (tds, off) := declsOf pg resNames
   -- what this exporter's `analyse_bindings` sees of every declaration (its own peel of the type)
   let ds := tds.map (TDecl.toMeta (if msl then mslPeel else hlslPeel))
@@ -414,9 +427,13 @@ def buildOne (msl : Bool) (p : Params) (pg : Prog) (pipe : Option PipeDef) : Str
         let bufAnns := if msl && pipe.isSome then
           (List.range groups.length).map fun i => "set" ++ toString i ++ "=>" ++ String.ofList (printBuffer i) else []
         let anns := if msl && pipe.isNone then [] else anns.map fun (n, a) => showAnnot n a
-        -- function table indexed like `funcs` (helpers first): only the entry points matter to the stage records
+        -- function table indexed like `funcs` (helpers first).  A stage record may point at a helper: a `Pipeline`
+        -- block written before its entry points resolves the name among the functions registered so far
         let fdefs : List FuncDef :=
-          pg.helpers.map (fun f => { name := f.name, emitted := f.name, attrs := [] }) ++
+          (List.range pg.helpers.length).map (fun h =>
+            match pg.helpers[h]? with
+            | some f => { name := f.name, emitted := helperNames.getD h f.name, attrs := [] }
+            | none => { name := "", emitted := "", attrs := [] }) ++
           (List.range pg.entries.length).map fun k =>
             match pg.entries[k]? with
             | some f => { name := f.name, emitted := entNames.getD k f.name, attrs := attrsOf f }
@@ -433,36 +450,49 @@ def buildOne (msl : Bool) (p : Params) (pg : Prog) (pipe : Option PipeDef) : Str
           ",".intercalate (reported.map fun s => s.stage.name ++ ":" ++ s.entryPoint ++ ":" ++ showThreads s.threadGroupSize) ++
           "] F[" ++ ",".intercalate (emitted.map showEm) ++ "]"
 
-/-- the file in source order (harness/src/c05/case.rs `render`): forward declarations of entry points (with their
-    attributes), helpers, then the entry points and the `Pipeline` blocks — all entry points first, or (layout 1) each
-    pipeline right after the entry points it is the first to mention, the remaining entry points at the end -/
-def itemsOf (pg : Prog) (fnOf : Fn → FnSrc) (srcs : List PipeSrc) : List Item :=
-  let ent := fun k => match pg.entries[k]? with | some f => [Item.fn (fnOf f)] | none => []
+/-- the file in source order (harness/src/c05/case.rs `render`): forward declarations of helpers, then of entry points
+    (written with their attributes, which the front end does not look at), helper definitions, then the entry point
+    definitions and the `Pipeline` blocks — all entry points first, or (layout 1) each pipeline right after the entry
+    points it is the first to mention, the remaining entry points at the end; a block marked `b` comes *before* those
+    definitions (plain layout: before all entry points, ahead of the unmarked blocks); at the very end the late
+    overloads.  Functions are numbered like `funcs` in `buildOne`: helpers, entry points, then the late overloads. -/
+def itemsOf (pg : Prog) (srcs : List PipeSrc) : List Item :=
+  let nh := pg.helpers.length
   let n := pg.entries.length
-  (pg.entries.filter (·.fd)).map (fun f => Item.fn (fnOf f)) ++ pg.helpers.map (fun f => Item.fn (fnOf f)) ++
-  if !pg.layout1 then (List.range n).flatMap ent ++ srcs.map Item.pipe else
-  let step := fun (acc : List Nat × List Item) (x : Pipe × PipeSrc) =>
-    let fresh := x.1.stages.foldl (fun l k => if acc.1.contains k || l.contains k then l else l ++ [k]) []
-    (acc.1 ++ fresh, acc.2 ++ fresh.flatMap ent ++ [Item.pipe x.2])
-  let (done, items) := (pg.pipes.zip srcs).foldl step ([], [])
-  items ++ ((List.range n).filter (fun k => !done.contains k)).flatMap ent
+  let ent := fun k => if k < n then [Item.defn (nh + k)] else []
+  let fdOf := fun (fs : List Fn) (off : Nat) =>
+    (List.range fs.length).flatMap fun k => match fs[k]? with | some f => if f.fd then [Item.decl (off + k)] else [] | none => []
+  let ps := pg.pipes.zip srcs
+  let late := (List.range (lateOverloads pg.entries).length).map fun k => Item.defn (nh + n + k)
+  fdOf pg.helpers 0 ++ fdOf pg.entries nh ++ (List.range nh).map Item.defn ++
+  (if !pg.layout1 then
+    ((ps.filter (·.1.before)).map fun x => Item.pipe x.2) ++ (List.range n).flatMap ent ++
+    ((ps.filter (!·.1.before)).map fun x => Item.pipe x.2)
+  else
+    let step := fun (acc : List Nat × List Item) (x : Pipe × PipeSrc) =>
+      let fresh := x.1.stages.foldl (fun l k => if acc.1.contains k || l.contains k then l else l ++ [k]) []
+      (acc.1 ++ fresh, acc.2 ++ (if x.1.before then [Item.pipe x.2] ++ fresh.flatMap ent else fresh.flatMap ent ++ [Item.pipe x.2]))
+    let (done, items) := ps.foldl step ([], [])
+    items ++ ((List.range n).filter (fun k => !done.contains k)).flatMap ent) ++ late
 
 /-- the front end: resource declarations first (they precede every function and `Pipeline` block), then the functions
-    and pipelines in file order -/
+    and pipelines in file order, each `Pipeline` block against the registry of its moment -/
 def frontEnd (pg : Prog) : Except FrontErr (List PipeDef) :=
   if pg.rs.any (fun r => r.ss && r.hasIndex && !r.cb) then .error .StaticSamplerUnexpectedBindingIndex else
-  let fnOf : Fn → FnSrc := fun f => { name := f.name, attrs := attrsOf f, hasBody := true, isTemplate := false }
+  -- nothing of the file is registered before it is read
+  let fnOf : Fn → FnSrc := fun f =>
+    { name := f.name, attrs := attrsOf f, hasBody := false, isTemplate := false, registered := false }
   -- the user's functions, numbered like `funcs` in `buildOne`, then the intrinsic functions of the registry
   let fns : List FnSrc := (pg.helpers ++ pg.entries).map fnOf ++
-    intrinsicFunctionNames.map (fun n => { name := n, attrs := [], hasBody := false, isTemplate := false })
+    (lateOverloads pg.entries).map (fun n => { name := n, attrs := [], hasBody := false, isTemplate := false, registered := false }) ++
+    intrinsicFunctionNames.map (fun n => { name := n, attrs := [], hasBody := false, isTemplate := false, registered := true })
   let srcs : List PipeSrc := pg.pipes.map fun pp =>
     { name := pp.name,
       stages := pp.stages.filterMap (fun k => match pg.entries[k]? with
         | some f => f.stage.map fun st => (st, f.name)
         | none => none),
       dflt := pp.dflt, graphicsProps := pp.gstate }
-  -- `addStage` numbers the functions over helpers ++ entries, like `funcs` in `buildOne`
-  parseFile fns [] (itemsOf pg fnOf srcs)
+  parseFile fns [] [] [] (itemsOf pg srcs)
 
 def showLayer : Layer → String
   | .mod => "M"
